@@ -776,6 +776,8 @@ impl<B: AsRef<[AtomicUsize]>> AtomicBitVec<B> {
     unsafe fn get_unchecked(&self, index: usize, ordering: Ordering) -> bool {
         let word_index = index / BITS;
         let bits = self.bits.as_ref();
+        #[cfg(vigna_sux_rs_verif)]
+        crate::verif_hook::sched_point();
         let word = bits.get_unchecked(word_index).load(ordering);
         (word >> (index % BITS)) & 1 != 0
     }
@@ -785,6 +787,8 @@ impl<B: AsRef<[AtomicUsize]>> AtomicBitVec<B> {
         let bit_index = index % BITS;
         let bits = self.bits.as_ref();
 
+        #[cfg(vigna_sux_rs_verif)]
+        crate::verif_hook::sched_point();
         // For constant values, this should be inlined with no test.
         if value {
             bits.get_unchecked(word_index)
@@ -801,6 +805,8 @@ impl<B: AsRef<[AtomicUsize]>> AtomicBitVec<B> {
         let bit_index = index % BITS;
         let bits = self.bits.as_ref();
 
+        #[cfg(vigna_sux_rs_verif)]
+        crate::verif_hook::sched_point();
         let old_word = if value {
             bits.get_unchecked(word_index)
                 .fetch_or(1 << bit_index, ordering)
